@@ -58,57 +58,196 @@ def func_of_node(P: Program, node) -> Optional[FuncInfo]:
 
 # ----------------------------------------------------------------------------- writer dispatch (C01.R5, C06)
 def writer_dispatch(P: Program, rep: Report, rule: str):
-    """Every concrete Block class is serialised by the arm meant for it."""
-    w = P.module("writer")
-    tb = P.func("writer", "_treat_block")
-    expected = {"Entry": "Entry", "String": "String", "Preamble": "Preamble", "ExplicitComment": "ExplicitComment",
-                "ImplicitComment": "ImplicitComment"}
-    failed = P.cls("model", "ParsingFailedBlock")
+    """Every concrete Block class is serialised - through the public ``write()`` - by the form meant for it: the written text of a
+    library holding one such block carries that block's own content (and, for failed blocks, its raw text under the comment)."""
+    from ..symdom import Hole, SymHooks, Template
+    wfn = P.func("writer", "write")
     classes = concrete_block_classes(P)
     rep.require_count(rule, "concrete Block classes", len(classes), 9)
-    markers = {}
+    failed = P.cls("model", "ParsingFailedBlock")
 
-    def mk(name):
-        def f(it, fn, args, kwargs, node):
-            return AList([f"<{name}>"])
-        return f
-    intr = {}
-    treat = {n: f for n, f in w.functions.items() if n.startswith("_treat_") and n != "_treat_block"}
-    rep.require_count(rule, "_treat_* serialisers", len(treat), 6)
-    for n, f in treat.items():
-        intr[f.qualname] = mk(n)
+    def build(it, c):
+        H = Hole
+        mk = lambda cls, *a, **k: new_obj(it, P, "model", cls, *a, **k)
+        if failed in c.mro:
+            if c.name == "ParsingFailedBlock":
+                return mk(c.name, error=Unknown("err"), start_line=0, raw=H("blk.raw")), ["blk.raw"], "failed"
+            inner = mk("Entry", entry_type=H("in.type"), key=H("in.key"), fields=AList([mk("Field", key=H("in.fk"), value=H("in.fv"), start_line=1)]),
+                       start_line=0, raw=H("blk.raw"))
+            if c.name == "DuplicateBlockKeyBlock":
+                first = mk("Entry", entry_type=H("first.type"), key=H("in.key"), fields=AList([]), start_line=0, raw=H("first.raw"))
+                return mk(c.name, key=H("in.key"), previous_block=first, duplicate_block=inner, start_line=0, raw=H("blk.raw")), ["blk.raw"], "failed"
+            if c.name == "DuplicateFieldKeyBlock":
+                return mk(c.name, duplicate_keys=ASet(["k"]), entry=inner), ["blk.raw"], "failed"
+            if c.name == "MiddlewareErrorBlock":
+                return mk(c.name, inner, ExcVal("ValueError", ["e"])), ["blk.raw"], "failed"
+            raise AnalysisError(f"{rule}: new failed-block class {c.name}: the checker does not know how to construct it (add it)")
+        if c.name == "Entry":
+            return mk("Entry", entry_type=H("blk.type"), key=H("blk.key"), fields=AList([mk("Field", key=H("blk.fk"), value=H("blk.fv"), start_line=1)]),
+                      start_line=0, raw=H("blk.raw")), ["blk.type", "blk.key", "blk.fk", "blk.fv"], "@"
+        if c.name == "String":
+            return mk("String", key=H("blk.key"), value=H("blk.value"), start_line=0, raw=H("blk.raw")), ["blk.key", "blk.value"], "@string{"
+        if c.name == "Preamble":
+            return mk("Preamble", value=H("blk.value"), start_line=0, raw=H("blk.raw")), ["blk.value"], "@preamble{"
+        if c.name == "ExplicitComment":
+            return mk("ExplicitComment", comment=H("blk.comment"), start_line=0, raw=H("blk.raw")), ["blk.comment"], "@comment{"
+        if c.name == "ImplicitComment":
+            return mk("ImplicitComment", comment=H("blk.comment"), start_line=0, raw=H("blk.raw")), ["blk.comment"], ""
+        raise AnalysisError(f"{rule}: new block class {c.name}: the checker does not know how to construct it (add it)")
+
     for c in classes:
         def run(ctx, c=c):
-            it = driver_interp(P, ctx, "writer", intr)
-            blk = AObj(c)
+            it = driver_interp(P, ctx, "writer", {}, SymHooks())
+            it.lin_assumptions = []
             try:
-                return ("return", call_func(it, tb, Unknown("fmt"), blk))
+                blk, want, form = build(it, c)
+                lib = new_obj(it, P, "library", "Library")
+                call(it, lib, "add", blk)
+                fmt = new_obj(it, P, "writer", "BibtexFormat")
+                it.set_attr(fmt, "parsing_failed_comment", Hole("opt.pfc"))
             except Raised as r:
-                return ("raise", r)
+                return ("setup", r, None, None)
             except (Unsupported, LoopBound) as u:
-                return ("unsupported", str(u))
-        outs = [o for _, o in explore(run, 200)]
-        for kind, v in outs:
-            construct = f"_treat_block:{c.name}"
-            if kind == "raise":
-                rep.fail(rule, construct, raise_site(P, v) or tb.loc, f"writer raises {v.cls_name()} for a {c.name} block")
-                continue
+                return ("unsupported", "setup: " + str(u), None, None)
+            try:
+                return ("return", call_func(it, wfn, lib, fmt), want, form)
+            except Raised as r:
+                return ("raise", r, want, form)
+            except (Unsupported, LoopBound) as u:
+                return ("unsupported", str(u), None, None)
+        for _ctx, (kind, v, want, form) in explore(run, 200):
+            construct = f"write:{c.name}"
+            if kind == "setup":
+                raise AnalysisError(f"{rule}: cannot construct a {c.name} block: {v!r}")
             if kind == "unsupported":
-                raise AnalysisError(f"{rule}: cannot follow _treat_block for {c.name}: {v}")
-            got = v.items[0] if isinstance(v, AList) and v.items else repr(v)
-            # which serialiser is meant for the class: by the annotation of its block parameter
-            want = None
-            for n, f in treat.items():
-                ps = f.node.args.args
-                ann = P._ann_type(f.module, ps[0].annotation) if ps else None
-                if isinstance(ann, ClassInfo) and ann in c.mro:
-                    if want is None or ann.is_subclass_of(want[1]):
-                        want = (n, ann)
-            if want is None:
-                raise AnalysisError(f"{rule}: no _treat_* serialiser is annotated for {c.name}")
-            rep.check(got == f"<{want[0]}>", rule, construct, tb.loc,
-                      f"{c.name} block is serialised by {got} instead of {want[0]} (arm order / class test)",
-                      note=f"{c.name} -> {want[0]}")
+                raise AnalysisError(f"{rule}: cannot follow write() for a {c.name} block: {v}")
+            if kind == "raise":
+                rep.fail(rule, construct, raise_site(P, v) or wfn.loc, f"writer raises {v.cls_name()} for a {c.name} block")
+                continue
+            text = repr(v if isinstance(v, (Template, str, Hole)) else v)
+            missing = [h for h in want if f"<{h}>" not in text]
+            lit = "".join(x for x in (v.pieces if isinstance(v, Template) else [v]) if isinstance(x, str))
+            problem = None
+            if missing:
+                problem = f"the text written for a {c.name} block lacks its {', '.join(missing)} (written: {text[:160]})"
+            elif form == "failed" and "<opt.pfc>" not in text:
+                problem = f"a {c.name} block is not written under the configured parsing-failed comment (written: {text[:160]})"
+            elif form not in ("failed", "") and form not in lit.replace(" ", ""):
+                problem = f"a {c.name} block is not written in its own form {form!r}... (written: {text[:160]})"
+            elif form == "" and "@" in lit:
+                problem = f"a free-text comment is written as a block (written: {text[:160]})"
+            rep.check(problem is None, rule, construct, wfn.loc, problem or "", note=f"{c.name} -> {form or 'free text'}")
+
+
+def keys_are_exact(P: Program, rep: Report, rule: str):
+    """Entries / strings whose keys differ only in letter case, by case folding or by a trailing blank are distinct blocks: adding them
+    (as the splitter does) neither raises nor flags any of them as a duplicate."""
+    keys = ["Knuth84", "knuth84", "KNUTH84", "knuth84 ", "Strauss", "Strau\u00df"]
+
+    def exact(ctx):
+        it = driver_interp(P, ctx, "library")
+        mk = lambda c, *a, **k: new_obj(it, P, "model", c, *a, **k)
+        bl = [mk("Entry", entry_type="a", key=k_, fields=AList([]), start_line=0, raw="r") for k_ in keys] + \
+             [mk("String", key=k_, value="v", start_line=0, raw="r") for k_ in ("Jan", "jan")]
+        lib = new_obj(it, P, "library", "Library")
+        try:
+            for b in bl:
+                call(it, lib, "add", b)
+            return [b.cls.name for b in it.iterate(it.get_attr(lib, "blocks"))], sorted(it.get_attr(lib, "entries_dict").items), sorted(it.get_attr(lib, "strings_dict").items)
+        except Raised as e_:
+            return f"raises {e_.cls_name()}"
+        except (Unsupported, LoopBound) as u:
+            raise AnalysisError(f"{rule}: analyser cannot follow Library.add: {u}")
+    for ctx, v in explore(exact, 20):
+        ok = isinstance(v, tuple) and v[0] == ["Entry"] * len(keys) + ["String"] * 2 and v[1] == sorted(keys) and v[2] == ["Jan", "jan"]
+        rep.check(ok, rule, "library:exact-keys", P.cls("library", "Library").loc,
+                  f"adding blocks whose keys differ only in case / case folding / a trailing blank: {v!r}; expected {len(keys) + 2} live blocks")
+
+
+def synthetic_subclass(P: Program, base: ClassInfo, name: str = None) -> ClassInfo:
+    """A user-defined subclass `class <name>(<base>): pass` (downstream code may subclass the model classes): not registered in the
+    program, only used to build instances."""
+    name = name or f"User{base.name}"
+    node = ast.parse(f"class {name}({base.name}):\n    pass\n").body[0]
+    ci = ClassInfo(base.module, node)
+    ci.bases = [base]
+    ci.mro = [ci] + list(base.mro)
+    return ci
+
+
+def constructor_variants(cls: ClassInfo):
+    """Keyword arguments for constructing `cls` differently from its defaults: every boolean default flipped (one at a time and all
+    together).  Parameters are read from the constructor found in the MRO."""
+    init = cls.find_method("__init__")
+    if init is None:
+        return []
+    a = init.node.args
+    params = [p.arg for p in a.posonlyargs + a.args][1:]
+    defaults = dict(zip(params[len(params) - len(a.defaults):], a.defaults))
+    defaults.update({k.arg: d for k, d in zip(a.kwonlyargs, a.kw_defaults) if d is not None})
+    flips = {n: (not d.value) for n, d in defaults.items() if isinstance(d, ast.Constant) and isinstance(d.value, bool)}
+    out = [{n: v} for n, v in flips.items()]
+    if len(flips) > 1:
+        out.append(dict(flips))
+    return out
+
+
+def instances_are_independent(P: Program, rep: Report, rule: str, cls: ClassInfo, observe, label: str, hooks_factory=None, module: str = None):
+    """Constructing further instances of `cls` (with any boolean option flipped) does not change what an existing default instance
+    does: `observe(it, instance)` gives the same result before and after."""
+    variants = constructor_variants(cls)
+    rep.count(f"constructor_variants_{cls.name}", len(variants))
+
+    def run(ctx):
+        it = driver_interp(P, ctx, module or cls.module.name.split(".", 1)[-1], {}, hooks_factory() if hooks_factory else None)
+        try:
+            d1 = it.construct(cls, [], {})
+            before = observe(it, d1)
+            made = []
+            for kw in variants:
+                try:
+                    it.construct(cls, [], dict(kw))
+                    made.append(kw)
+                except Raised:
+                    pass            # a combination the constructor rejects
+            after = observe(it, d1)
+            return (before, after, made)
+        except Raised as r:
+            return ("raise", r.cls_name(), None)
+        except (Unsupported, LoopBound) as u:
+            raise AnalysisError(f"{rule}: analyser cannot follow {cls.name}: {u}")
+    for _c, (before, after, made) in explore(run, 20):
+        rep.check(before == after and before != "raise", rule, f"instances-independent:{label}", cls.loc,
+                  f"a default {cls.name} behaves differently once other instances were constructed ({made}): before {before!r}, after {after!r} "
+                  f"(options stored in class-level state are shared by all instances)")
+
+
+def default_stacks_are_fresh(P: Program, rep: Report, rule: str):
+    """default_parse_stack() / default_unparse_stack() hand out a list of their own on every call: a caller who customises the
+    list it got (removes or adds a middleware) must not change what later default parses / writes use."""
+    for fname, n_expected in (("default_parse_stack", 2), ("default_unparse_stack", 1)):
+        f = P.func("middlewares.parsestack", fname)
+
+        def run(ctx, f=f):
+            it = driver_interp(P, ctx, "middlewares.parsestack")
+            try:
+                first = call_func(it, f)
+                before = [x.cls.name for x in it.iterate(first) if isinstance(x, AObj)]
+                if isinstance(first, AList) and first.items:
+                    first.items.pop(0)          # the caller customises its list
+                    first.items.append("callers-own-addition")
+                second = call_func(it, f)
+                after = [x.cls.name if isinstance(x, AObj) else repr(x) for x in it.iterate(second)]
+                return (before, after, second is first)
+            except Raised as r:
+                return ("raise", r.cls_name(), None)
+            except (Unsupported, LoopBound) as u:
+                raise AnalysisError(f"{rule}: analyser cannot follow {fname}: {u}")
+        for _c, (before, after, same) in explore(run, 10):
+            ok = before != "raise" and before == after and not same and len(before) == n_expected
+            rep.check(ok, rule, f"{fname}:fresh-list-per-call", f.loc,
+                      f"{fname}() returned {before}; after the caller changed that list a second call returns {after}"
+                      f"{' (the very same list object)' if same else ''}: the default stack is shared mutable state")
 
 
 # ----------------------------------------------------------------------------- exception copy safety (C01.R6, C07, C13)
@@ -148,7 +287,6 @@ def exception_copy_safety(P: Program, rep: Report, rule: str):
             if site is None:
                 rep.ok(rule, construct, m.loc, "defines __reduce__ (class is never constructed by the package)", nontrivial=False)
                 continue
-            from ..absint import AClass, AObj, Raised, Unknown, Unsupported, LoopBound, explore
 
             def rebuild(ctx, c=c, site=site):
                 it = driver_interp(P, ctx, c.module.name.split(".", 1)[-1])
@@ -196,6 +334,50 @@ def exception_copy_safety(P: Program, rep: Report, rule: str):
         if sup and any(isinstance(x, ast.Starred) for x in sup[0].args):
             passed = n_req
         ok = n_req <= passed <= n_pos or a.vararg is not None and passed >= n_req
+        if ok:
+            # arity fits: rebuild an instance the way copy / pickle do - cls(*instance.args) - and compare what it stores
+            site = None
+            for f in P.all_funcs:
+                for n in own_nodes(f.node):
+                    if isinstance(n, ast.Call) and ast.unparse(n.func).split(".")[-1] == c.name:
+                        site = site or n
+            if site is not None:
+                _explore = explore
+
+                def rebuild2(ctx, c=c, site=site):
+                    it = driver_interp(P, ctx, c.module.name.split(".", 1)[-1])
+
+                    def sample(node, tag):
+                        if isinstance(node, (ast.List, ast.ListComp)) or "list" in ast.unparse(node).lower() or "errors" in ast.unparse(node).lower():
+                            return AList(["first reason", "second"])
+                        return Unknown(tag, "str")
+                    args = [sample(a_, f"arg{i}") for i, a_ in enumerate(site.args)]
+                    kwargs = {k.arg: sample(k.value, f"kw_{k.arg}") for k in site.keywords if k.arg}
+                    try:
+                        obj = it.construct(c, args, kwargs)
+                    except (Raised, Unsupported, LoopBound):
+                        return None
+                    stored = obj.attrs.get("args")
+                    if not isinstance(stored, tuple):
+                        return None
+                    try:
+                        new = it.construct(c, list(stored), {})
+                    except Raised as r:
+                        return f"rebuilding it as {c.name}(*args) raises {r.cls_name()}"
+                    except (Unsupported, LoopBound):
+                        return None
+                    for k_, v_ in obj.attrs.items():
+                        if k_ not in new.attrs or not (new.attrs[k_] is v_ or it.equal(new.attrs[k_], v_)):
+                            return f"a copy rebuilt as {c.name}(*args) stores {k_}={new.attrs.get(k_)!r}, the original {v_!r}"
+                    return None
+                try:
+                    bad2 = [v for _c, v in _explore(rebuild2, 20) if v]
+                except AnalysisError:
+                    bad2 = []
+                if bad2:
+                    rep.fail(rule, construct, init.loc, f"{c.name}: {bad2[0]} (copy.deepcopy / pickle rebuild exceptions from their args; sorting and the default "
+                             f"write stack deep-copy failed blocks holding it)")
+                    continue
         rep.check(ok, rule, construct, init.loc,
                   f"{c.name}.__init__ needs {n_req}..{n_pos} positional arguments but passes {passed} to its base __init__: "
                   f"copy.deepcopy / pickle rebuild the exception from those args and raise TypeError "
@@ -242,20 +424,36 @@ def write_string_never_raises(P: Program, rep: Report, rule: str):
     ws = P.func("entrypoint", "write_string")
     stats = {"paths": 0}
 
-    def run(ctx):
+    def run(ctx, variant="default"):
         it = driver_interp(P, ctx, "entrypoint")
         try:
-            lib, blocks = sample_library(it, P)
+            if variant in ("default", "auto"):
+                lib, blocks = sample_library(it, P)
+            else:
+                # libraries in which no entry has a field: empty, comments only, a field-less entry
+                mk = lambda cls, *a, **k: new_obj(it, P, "model", cls, *a, **k)
+                lib = new_obj(it, P, "library", "Library")
+                if variant == "auto-fieldless":
+                    call(it, lib, "add", AList([mk("ImplicitComment", comment="c", start_line=0, raw="c"),
+                                                mk("Entry", entry_type="a", key="k", fields=AList([]), start_line=1, raw="@a{k}"),
+                                                mk("String", key="s", value="v", start_line=2, raw="@string{s=v}")]))
+            kw = {}
+            if variant != "default":
+                fmt = new_obj(it, P, "writer", "BibtexFormat")
+                it.set_attr(fmt, "value_column", "auto")
+                kw["bibtex_format"] = fmt
         except (Raised, Unsupported) as e:
             return ("setup", e, None)
         try:
-            v = call_func(it, ws, lib)
+            v = call_func(it, ws, lib, **kw)
             return ("return", v, it)
         except Raised as r:
             return ("raise", r, it)
         except (Unsupported, LoopBound) as u:
             return ("unsupported", str(u), it)
     res = explore(run, 20000)
+    for variant in ("auto-empty", "auto-fieldless"):      # ('auto' over libraries with fields: decided symbolically under C06.R3)
+        res = res + explore(lambda c, v=variant: run(c, v), 20000)
     n_ok = 0
     seen = set()
     for ctx, (kind, v, it) in res:
@@ -313,6 +511,39 @@ def parse_stack_never_raises(P: Program, rep: Report, rule: str):
     rep.count("parse_stack_paths", n)
     if not seen:
         rep.ok(rule, "parse-stack:all-paths-return", ps.loc, f"{n} abstract paths, all return")
+    parse_stack_terminates(P, rep, rule)
+
+
+def parse_stack_terminates(P: Program, rep: Report, rule: str):
+    """Concrete libraries whose @string definitions refer to each other (a = b, b = a; s = s; a chain): the default parse stack must
+    come back.  All values are concrete, so a loop bound hit here is a loop that does not end."""
+    ps = P.func("middlewares.parsestack", "default_parse_stack")
+    layouts = {"self-reference": [("me", "me")], "two-cycle": [("a", "b"), ("b", "a")], "chain-into-cycle": [("x", "a"), ("a", "b"), ("b", "a")],
+               "chain": [("x", "y"), ("y", "z"), ("z", '"end"')]}
+    for label, defs in layouts.items():
+        def run(ctx, defs=defs):
+            it = driver_interp(P, ctx, "middlewares.parsestack")
+            mk = lambda cls, *a, **k: new_obj(it, P, "model", cls, *a, **k)
+            lib = new_obj(it, P, "library", "Library")
+            blocks = [mk("String", key=k_, value=v_, start_line=i_, raw="r") for i_, (k_, v_) in enumerate(defs)]
+            blocks.append(mk("Entry", entry_type="a", key="k", start_line=9, raw="r",
+                             fields=AList([mk("Field", key="author", value=defs[0][0], start_line=10), mk("Field", key="t", value="{x}", start_line=11)])))
+            call(it, lib, "add", AList(blocks))
+            try:
+                for m in it.iterate(call_func(it, ps)):
+                    lib = call(it, m, "transform", lib)
+                return ("return", None)
+            except Raised as r:
+                return ("raise", r.cls_name())
+            except LoopBound as u:
+                return ("loop", str(u))
+            except Unsupported as u:
+                return ("unsupported", str(u))
+        for ctx, (kind, v) in explore(run, 50):
+            if kind == "unsupported":
+                raise AnalysisError(f"{rule}: analyser cannot follow the default parse stack: {v}")
+            rep.check(kind == "return", rule, f"parse-stack-terminates:{label}", ps.loc,
+                      f"default parse stack on @string definitions {defs}: " + ("a loop does not end (" + str(v) + ")" if kind == "loop" else f"raises {v}"))
 
 
 IMMUTABLE_ANN = {"str", "int", "bool", "float", "bytes", "None", "Optional[str]", "Optional[int]"}
